@@ -34,9 +34,11 @@ What is proved:
         log) for closure-free expressions whose rewritten nodes are projections out of record
         literals with a fresh binder (`Dce.uaOK`, evaluated by the driver on every case);
         `optimize_correct_partial`: the whole of `optimize` for closure-free module bodies.
-  Not proved: the allocation rewrite for expressions that define closures (needs a value relation
-  up to reordered/extended environments); that `shapeOK`/`bindersCoherent`/`uaOK` hold for every
-  output of the translator (they are evaluated per case).
+  (vi)  `unnecessaryAlloc_correct` / `…_observable` / `optimize_correct_observable`: the allocation
+        rewrite and the whole pipeline for the FULL core language (closures included), by a
+        simulation whose value relation compares environments by lookup (`Proofs/UaRel.lean`).
+  Not proved: that `shapeOK`/`bindersCoherent`/`uaOK` hold for every output of the translator
+  (they are evaluated per case).
 -/
 import GluonModel.OptCore
 import GluonModel.Dce
@@ -44,6 +46,7 @@ import GluonModel.Proofs.Dce
 import GluonModel.Proofs.DceRel
 import GluonModel.Proofs.Graph
 import GluonModel.Proofs.Ua
+import GluonModel.Proofs.UaRel
 import GluonModel.Generated.OptPipeline
 
 namespace GluonModel.Props.C04
@@ -210,6 +213,58 @@ theorem optimize_dce_step_correct (fuel : Nat) (e : Expr)
     AllowedRel (inList (usedBindings (unnecessaryAlloc e))) (run fuel (unnecessaryAlloc e))
       (run fuel (optimize e)) :=
   dce_correct_usedBindings fuel (unnecessaryAlloc e) hs hc hw
+
+/-! ### The allocation rewrite for the whole core language (closures included) -/
+
+/-- `optimize_unnecessary_allocation` on ANY core expression (closures, recursive groups, partial
+    application): the rewritten run has the same outcome and the same host calls up to
+    `VRelU` — a closure of the rewritten run is the closure of the original run with rewritten
+    bodies and an environment that gives related values to every identifier (it may be reordered
+    and hold extra `dummy` bindings).  `uaOK` (rewritten nodes are projections with a fresh,
+    non-dummy binder out of duplicate-free record literals) is evaluated by the driver on every
+    core expression dumped from the real compiler. -/
+theorem unnecessaryAlloc_correct (fuel : Nat) (e : Expr) (ho : uaOK e = true) :
+    GluonModel.Proofs.UaRel.RRelU GluonModel.Proofs.UaRel.VRelU
+      (run fuel e) (run fuel (unnecessaryAlloc e)) :=
+  GluonModel.Proofs.UaRel.run_relU fuel e ho
+
+/-- What the host observes of the rewrite: equality, when no function is returned or logged. -/
+theorem unnecessaryAlloc_correct_observable (fuel : Nat) (e : Expr) (ho : uaOK e = true)
+    (hv : ∀ v, (run fuel e).out = .ok v → FirstOrder v) (hl : FirstOrderLog (run fuel e).log) :
+    run fuel (unnecessaryAlloc e) = run fuel e :=
+  GluonModel.Proofs.UaRel.run_eq_of_firstOrder fuel e ho hv hl
+
+/-- The WHOLE active pipeline on ANY module body (no closure-freeness hypothesis): when the
+    unoptimised run returns and logs first-order data, the optimised run is equal to it, or the
+    unoptimised run stopped with an arithmetic failure the optimiser was allowed to skip. -/
+theorem optimize_correct_observable (fuel : Nat) (e : Expr) (ho : uaOK e = true)
+    (hs : shapeOK (unnecessaryAlloc e) = true) (hc : bindersCoherent (unnecessaryAlloc e) = true)
+    (hw : isWrong (run fuel e).out = false)
+    (hv : ∀ v, (run fuel e).out = .ok v → FirstOrder v) (hl : FirstOrderLog (run fuel e).log) :
+    Allowed (run fuel e) (run fuel (optimize e)) := by
+  have h1 := unnecessaryAlloc_correct_observable fuel e ho hv hl
+  have h2 := dce_correct_observable (inList (usedBindings (unnecessaryAlloc e))) fuel
+    (unnecessaryAlloc e) (usedBindings_kept _ hs hc) (by rw [h1]; exact hw)
+    (by rw [h1]; exact hv) (by rw [h1]; exact hl)
+  rw [h1] at h2
+  exact h2
+
+/-- `rec let f x = { a = vlog x, y = 2 }.y in f 7`: the rewritten projection sits inside a closure
+    body, so the closure-free theorems do not apply; the full-language ones do. -/
+def closureProjWitness : Expr :=
+  .letRec (.cons "f" ["x"]
+      (.matchE (.data "<record>" ["a", "y"]
+          (.cons (.call (.ident "vlog") (.cons (.ident "x") .nil)) (.cons (.const (.int 2)) .nil)))
+        (.cons (.record [("y", "y1")]) (.ident "y1") .nil)) .nil)
+    (.call (.ident "f") (.cons (.const (.int 7)) .nil))
+
+example : noRec closureProjWitness = false ∧ uaOK closureProjWitness = true ∧
+    shapeOK (unnecessaryAlloc closureProjWitness) = true ∧
+    bindersCoherent (unnecessaryAlloc closureProjWitness) = true ∧
+    isWrong (run 4 closureProjWitness).out = false := by decide
+example : (match unnecessaryAlloc closureProjWitness with
+    | .letRec (.cons _ _ (.letE _ _ _) _) _ => true | _ => false) = true := by decide
+example : (run 4 (optimize closureProjWitness)).log.length = 1 := by decide
 
 /-- `{ x = vlog 1, y = 2 }.y` in core form: rewritten to `let dummy = vlog 1 in let y1 = 2 in y1`;
     the host call of the dropped field stays. -/
